@@ -20,9 +20,13 @@ var (
 	DeadlineExceeded = context.DeadlineExceeded
 )
 
+//go:norace
 func Background() Context { return context.Background() }
-func TODO() Context       { return context.TODO() }
 
+//go:norace
+func TODO() Context { return context.TODO() }
+
+//go:norace
 func WithValue(parent Context, key, val any) Context { return context.WithValue(parent, key, val) }
 
 type vctx struct {
@@ -31,13 +35,22 @@ type vctx struct {
 	err    error
 }
 
+//go:norace
 func (c *vctx) Deadline() (time.Time, bool) { return time.Time{}, false }
-func (c *vctx) Done() <-chan struct{}       { return c.done }
-func (c *vctx) Err() error                  { return c.err }
-func (c *vctx) Value(k any) any             { return c.parent.Value(k) }
+
+//go:norace
+func (c *vctx) Done() <-chan struct{} { return c.done }
+
+//go:norace
+func (c *vctx) Err() error { return c.err }
+
+//go:norace
+func (c *vctx) Value(k any) any { return c.parent.Value(k) }
 
 // WithCancel returns a context cancelled only through the returned function
 // (parents used in the instrumented code are Background()).
+//
+//go:norace
 func WithCancel(parent Context) (Context, CancelFunc) {
 	if !vsched.Active() {
 		return context.WithCancel(parent)
@@ -52,6 +65,7 @@ func WithCancel(parent Context) (Context, CancelFunc) {
 	}
 }
 
+//go:norace
 func WithTimeout(parent Context, d time.Duration) (Context, CancelFunc) {
 	return context.WithTimeout(parent, d)
 }
